@@ -889,6 +889,35 @@ def rule_nodekey(ctx):
                 r.fail(Finding("R-NODEKEY", f"R-NODEKEY|{cq}.{mname}|lossy", f"{m.file}:{lossy.lineno}",
                                f"`{norm(lossy)[:70]}` in {cq}.{mname} abbreviates the text of a condition / part; the documentation tree identifies a node by `str(part)` of its path parts, "
                                f"so two long keys that differ only in the abbreviated middle are merged into one node", []))
+    # a key named by a key condition gets its node through the *plain-part conversion* of the path constructor
+    # (`DataPath(key)` / `path / key`), the same conversion that gives a rule written with that plain key its
+    # parts: an explicit part class chooses differently for some key types (an int key is a map-or-list part)
+    part_classes = {c.name for c in prog.cls("datapath.ContainerValue").all_subclasses(include_self=True)}
+    seen_ext = False
+    for lp in [n for n in ast.walk(f.node) if isinstance(n, ast.For) and isinstance(n.target, ast.Name)]:
+        it = norm(lp.iter)
+        if not (it.endswith(".callable.args") or it.endswith(".callable.kwargs.values()")):
+            continue
+        k = lp.target.id
+        for n in ast.walk(lp):
+            if not (isinstance(n, ast.BinOp) and isinstance(n.op, ast.Div)):
+                continue
+            op = n.right
+            if k not in {x.id for x in ast.walk(op) if isinstance(x, ast.Name)}:
+                continue
+            seen_ext = True
+            inst = {"named key extends the path by": norm(op)}
+            r.instances.append(inst)
+            if (isinstance(op, ast.Name) and op.id == k) or (isinstance(op, ast.Call) and norm(op.func) == "DataPath" and len(op.args) == 1 and not op.keywords and norm(op.args[0]) == k):
+                r.ok()
+            elif isinstance(op, ast.Call) and norm(op.func).split(".")[-1] in part_classes:
+                r.fail(Finding("R-NODEKEY", f"R-NODEKEY|{f.qualname}|named-key-part", f"{f.file}:{n.lineno}",
+                               f"`{norm(n)[:90]}`: the node of a key named by a key condition is built with the explicit part class `{norm(op.func)}`; a rule written with the same plain key "
+                               f"gets its part from the path constructor's conversion (an int key becomes a map-or-list part), so for such keys the named key and its own rule land on different nodes", []))
+            else:
+                r.undecided.append(inst)
+    if not seen_ext:
+        r.instances.append({"named key extends the path by": None})
     # the root component is put back on every node *before* nesting moves nodes below their parents
     nest_if = next((i for i, st in enumerate(f.node.body) if isinstance(st, ast.If) and isinstance(st.test, ast.Name) and st.test.id in [p.name for p in f.params] and "nest" in st.test.id), None)
     restore = [i for i, st in enumerate(f.node.body) for n in ast.walk(st)
